@@ -46,7 +46,8 @@ Init ==
   /\ IF Model THEN method \in Methods /\ route \in Routes /\ ev = NoEv
               ELSE \E e \in Observed : ev = e /\ method = e.method /\ route = e.route
 
-Step(s) == Len(hist) < (IF Model THEN MaxLen ELSE Len(ev.steps)) /\ (Model \/ ev.steps[Len(hist) + 1] = s)
+Step(s) == IF Model THEN Len(hist) < MaxLen
+                    ELSE Len(hist) < Len(ev.steps) /\ ev.steps[Len(hist) + 1] = s
 
 SetNAC(t) ==
   /\ Step(<<"set", t>>)
